@@ -4,6 +4,7 @@ CFG = {'module': 'Dnp3.Props.C07',
  'gen': ['Link.lean'],
  'engines': ['linkaddr', 'transport', 'outstation'],
  'monitors': ['acts_only_if_addressed',
+              'delivered_data_is_from_accepted_frame',
               'broadcast_never_acked',
               'link_status_answered',
               'confirmed_once_per_toggle',
